@@ -231,7 +231,7 @@ impl StateMachine<'_> {
                 &self.line,
                 &grep_line.path,
                 self.config.ripgrep_header_style.decoration_style,
-                &self.config.grep_file_style,
+                &self.config.ripgrep_header_file_style,
                 &self.config.grep_line_number_style,
                 &HunkHeaderIncludeFilePath::Yes,
                 &HunkHeaderIncludeLineNumber::No,
